@@ -25,13 +25,24 @@ case "$extra" in
 esac
 
 here="$(cd "$(dirname "$0")" && pwd)"
-target="/verif/.build/cargo/$suffix"
-bindir="/verif/.build/bin"
+# VERIF_REPO / VERIF_IMPL_DIR: evaluate a scratch worktree of the repository (seeded changes) without touching /repo
+# or the binaries the registered checks use.  Defaults are what every registered check runs with.
+repo="${VERIF_REPO:-/repo}"
+impl="${VERIF_IMPL_DIR:-/verif/.build}"
+target="$impl/cargo/$suffix"
+bindir="$impl/bin"
 
 mkdir -p "$target" "$bindir"
 
-# Same dependency versions as /repo; cargo adds the harness's own entry.
-cp -f /repo/Cargo.lock "$here/Cargo.lock"
+if [ "$repo" != "/repo" ]; then
+    mkdir -p "$impl/harness-src/src"
+    sed "s#path = \"/repo\"#path = \"$repo\"#" "$here/Cargo.toml" > "$impl/harness-src/Cargo.toml"
+    cp -f "$here/src/main.rs" "$impl/harness-src/src/main.rs"
+    here="$impl/harness-src"
+fi
+
+# Same dependency versions as the repository; cargo adds the harness's own entry.
+cp -f "$repo/Cargo.lock" "$here/Cargo.lock"
 
 CARGO_NET_OFFLINE=true cargo build --offline --release \
     --manifest-path "$here/Cargo.toml" \
